@@ -9,6 +9,15 @@ converter).  Tie to the code on every run (observation level only — the proper
     (harness/faults.py): snapshot before/after, `tempfile.tempdir` redirected, stub converters or the
     real `LibreOfficeConverter` driven by a fake `soffice`, optionally an exception injected at the
     n-th library call (exhaustive over call sites, sampled over call instances);
+  * the real converter class is exercised over a fake soffice PROCESS whose run is data (`faults.proc_spec`):
+    exit status 0 / several non-zero statuses / killed by KILL, TERM, HUP  x  what it wrote BEFORE exiting (nothing,
+    the full / a truncated / an empty `<stem>.<fmt>`, the document under another name or in a subdirectory)  x
+    resource folder, stray files in the output directory, output on stdout/stderr (small / > pipe buffer); explicit
+    converter object or the default one found on PATH; the version probe always behaves normally.  Whether the
+    conversion FAILED is taken from the process (its own log + its behaviour: non-zero exit status whatever it
+    wrote, or no `<stem>.<fmt>`), never from what the library made of it: then the export has to raise, leave the
+    target as it was and no debris.  The model side is `Model.Export.procConverter (fakeProc …)` (exit status +
+    produced entries -> verdict), theorems in `Props/C18proc.lean`.  (`LibreOfficeConverter` has no timeout.)
   * oracle (independent of the model): the Lean-defined `Model.Export.violations` evaluated by the driver
     on the real before/after snapshots (+ here: the converter must have been given exactly the string
     `rtf_encode()` returned);
@@ -45,7 +54,12 @@ RULE = ("matrix: 4 export functions x target states (existing / absent / missing
         "target is a directory / a folder <target name>_files exists / HTML: existing resource folder, resource path "
         "is a file, second export) x converter "
         "(7 stub behaviours, failing lookup, real LibreOfficeConverter on a fake soffice: ok/okres/fail/no output, "
-        "lookup through PATH) x documents (incl. two whose encode raises); names: the same matrix over target FILE "
+        "lookup through PATH) x documents (incl. two whose encode raises); proc: the real LibreOfficeConverter (explicit / "
+        "found on PATH) over fake soffice PROCESSES = exit status (0, 1, 2, 3, 77, 255, killed by KILL/TERM/HUP) x written "
+        "before the exit (nothing, full / truncated / empty <stem>.<fmt>, <stem>.<fmt>.part, nested_out/<stem>.<fmt>) x "
+        "resource folder x stray files in the output directory x noise on stdout/stderr, for docx/pdf/html over existing and "
+        "new targets and the other target states, usual and unusual names; a run that exits non-zero (whatever it wrote) or "
+        "leaves no <stem>.<fmt> is a failed conversion (judged from the process, not from the library); names: the same matrix over target FILE "
         "NAMES (usual, upper/mixed-case suffix, foreign suffix, none, several, hidden, trailing dot, dots only, spaces, "
         "non-ASCII, shell metacharacters, long, *_files) x target SPELLINGS (Path/str, absolute, relative, ./, ../, //, ~), "
         "successful and failing converters and encoders; unit: model stem/rtf/converted/resource names vs pathlib on "
@@ -65,13 +79,18 @@ MANIFEST = dict(
          "parent directories; on success target = encoder's string / converter's output, HTML resource folder exactly "
          "next to the target, nothing else. File names are data (Props/C18names.lean): <stem>.rtf, the converted "
          "file's name and the resource folder's name <converted name>_files are derived from an arbitrary target name, "
-         "the folder is placed next to the target under the converted file's name. Tied to the code on every run by "
+         "the folder is placed next to the target under the converted file's name. The shipped converter is a function "
+         "of a process run (Props/C18proc.lean): run outcome = exit status + entries written; non-zero exit status is a "
+         "failed conversion whatever was written, exit 0 without <stem>.<fmt> too; an export whose runs fail raises and is "
+         "all-or-nothing at every fault point, for every process. Tied to the code on every run by "
          "fault-injected real exports (every library call site; target names with usual/upper-case/foreign/no/several "
          "suffixes, hidden, spaces, non-ASCII, shell metacharacters; targets spelled absolute/relative/./../~) judged by a "
          "Lean-defined oracle on before/after snapshots and compared with the model.",
     note="partial: OS-level failures inside one effect (ENOSPC in write_text, cross-device move, failing rmtree, a "
          "raising print after the move) are not exhibited by the model; LibreOffice is replaced by stubs / a fake "
-         "soffice. Models the tree with the D23 repair (fixes/html-resource-folder-nesting.patch). A target that is itself "
+         "soffice process (driven through the real LibreOfficeConverter: exit statuses, signals, full/truncated/empty/"
+         "misnamed output, stray files; a run with exit status 0 and a truncated document counts as a conversion - the "
+         "library cannot know). Models the tree with the D23 repair (fixes/html-resource-folder-nesting.patch). A target that is itself "
          "called <stem>.html_files (its own resource folder's path) is outside the success clause (hypothesis of "
          "C18_conv_success): there write_html returns and the HTML file is replaced by the folder.",
     technique="Lean 4 proof (effect sequences, frame reasoning) + fault-injected differential correspondence",
@@ -110,7 +129,41 @@ GOOD_DOCS = ["small", "paged", "grouped", "unicode", "multi"]
 BAD_DOCS = ["bad_pageby", "bad_width"]
 
 STUB_BEHS = ["failBefore", "failAfter", "retList", "retOther", "retMissing", "okPlain", "okRes"]
-REAL_BEHS = {"ok": "okPlain", "okres": "okRes", "fail": "failBefore", "noout": "failBefore"}
+REAL_BEHS = ["ok", "okres", "fail", "noout"]
+
+# ---- the real LibreOfficeConverter over a fake soffice PROCESS (faults.proc_spec): x<exit>.<out>[.res][.extra][.noisy|.loud]
+PROC_EXITS_BAD = ["1", "2", "3", "77", "255", "KILL", "TERM", "HUP"]
+PROC_OUTS = ["none", "full", "trunc", "empty", "part", "sub"]
+# fixed representatives (every run of the matrix): the process FAILS after writing full / truncated / empty output
+# (+ resource folder, stray files, noise), is killed by a signal, names its output differently; and runs that
+# succeed with a truncated / empty document, stray files, loud output
+PROC_BAD_FIXED = ["x1.full", "x1.trunc7", "x1.empty", "x1.full.res", "x77.trunc3.res.extra", "xKILL.trunc12", "xTERM.full.extra",
+                  "xHUP.none", "x2.part", "x1.sub.noisy", "x3.full.loud", "x0.part", "x0.sub.extra", "x0.none.res"]
+PROC_OK_FIXED = ["x0.full.extra", "x0.trunc9", "x0.empty", "x0.full.res.extra.loud", "x0.trunc5.res", "x0.full.noisy"]
+
+
+def proc_beh(rng, ok=None, exit=None, out=None):
+    """a random behaviour of the fake process; ok=True: the run succeeds, ok=False: it fails"""
+    if exit is None:
+        exit = "0" if ok else rng.choice(PROC_EXITS_BAD + (["0"] if ok is None or ok is False else []))
+    if out is None:
+        if ok:
+            out = rng.choice(["full", "full", "trunc", "empty"])
+        elif exit == "0" and ok is False:
+            out = rng.choice(["none", "part", "sub"])
+        else:
+            out = rng.choice(PROC_OUTS)
+    name = f"x{exit}.{out}" + (str(rng.randint(1, 40)) if out == "trunc" else "")
+    if out in ("full", "trunc", "empty") and rng.random() < 0.4:
+        name += ".res"
+    if rng.random() < 0.3:
+        name += ".extra"
+    r = rng.random()
+    if r < 0.2:
+        name += ".noisy"
+    elif r < 0.3:
+        name += ".loud"
+    return name
 
 
 def conv_configs():
@@ -119,6 +172,12 @@ def conv_configs():
     out += [dict(mode="real", beh=b) for b in REAL_BEHS]
     out += [dict(mode="path", beh="ok"), dict(mode="path", beh="okres")]
     return out
+
+
+def proc_configs(rng):
+    """further converter configurations of the matrix: the fixed process behaviours, each through an explicit
+    LibreOfficeConverter or the default one found on PATH"""
+    return [dict(mode=rng.choice(["real", "real", "path"]), beh=b) for b in PROC_BAD_FIXED + PROC_OK_FIXED]
 
 
 # ------------------------------------------------------------------ workers
@@ -151,9 +210,13 @@ def driver_request(case, r):
         mode = conv.get("mode")
         if mode == "lookup_fail":
             req["conv"] = dict(mode="lookup_fail")
+        elif mode == "stub":
+            req["conv"] = dict(mode="stub", beh=conv["beh"], fmt=faults.EXT[fn], explicit=True)
         else:
-            beh = conv["beh"] if mode == "stub" else REAL_BEHS[conv["beh"]]
-            req["conv"] = dict(mode="stub", beh=beh, fmt=faults.EXT[fn], explicit=(mode != "path"))
+            # real LibreOfficeConverter over the fake process: the model gets the RUN (exit status + what it writes)
+            sp = faults.proc_spec(conv["beh"])
+            req["conv"] = dict(mode="proc", exit=sp["code"], out=sp["out"], n=sp["n"], res=sp["res"], extra=sp["extra"],
+                               fmt=faults.EXT[fn], explicit=(mode != "path"))
     tdir = case["state"] == "target_is_dir"
     if fn == "rtf":
         expected = enc
@@ -190,7 +253,7 @@ def slim(case, r=None):
          if k in case}
     if r is not None:
         d["observed"] = {k: r.get(k) for k in ("raised", "exc", "kind", "trace", "fired_site", "k", "swallowed",
-                                                "arg", "conv_in_name", "conv_out_name", "res_name")}
+                                                "arg", "conv_in_name", "conv_out_name", "res_name", "proc")}
         if r.get("after") is not None:
             d["observed"]["work_after"] = ["/".join(e[0]) + ("/" if e[1] == "d" else "") for e in r["after"]
                                            if e[0][:1] == ["work"]][:40]
@@ -208,6 +271,11 @@ def judge(res, case, r, d):
         if "resource-folder-not-exactly-next-to-target" in viol:
             extra = (f" (the converter produced {r.get('conv_out_name')!r} with the folder {r.get('res_name')!r}; after the "
                      f"call it is not at {'/'.join(r['dir'] + [r.get('res_name') or '?'])} with the converter's content)")
+        if "no-raise-after-failed-encode-or-conversion" in viol and r.get("proc") and faults.proc_failed(r["proc"]):
+            sp = r["proc"]
+            extra += (f" (the LibreOffice process wrote {sp['out']}" + (f"[{sp['n']} bytes]" if sp["out"] == "trunc" else "")
+                      + f" and exited with status {sp['exit']}: a failed conversion, but {case['fn']} returned; target "
+                      + target_change(r) + ")")
         fails.append("oracle clauses violated on the real file system: " + ", ".join(viol) + extra)
     if r.get("conv_input") is not None and r.get("enc") is not None and r["conv_input"] != r["enc"]:
         fails.append("the converter was not given exactly the string rtf_encode() returned")
@@ -236,6 +304,53 @@ def judge(res, case, r, d):
     return fails, dis
 
 
+def beh_key(beh):
+    """behaviour name without the truncation length (for the distinct-case key)"""
+    return re.sub(r"trunc\d+", "trunc", beh) if beh else beh
+
+
+def count_proc(res, c, o):
+    """input distribution of the fake-process cases (real LibreOfficeConverter)"""
+    sp = o["proc"]
+    if not sp["runs"]:
+        res.count("proc:conversion process not reached")
+        return
+    ex = "0" if sp["code"] == 0 else ("signal" if sp["exit"] in faults.PROC_SIGNALS else "nonzero")
+    res.count(f"proc_exit:{ex}")
+    res.count(f"proc_out:{sp['out']}")
+    wrote = sp["out"] in ("full", "trunc", "empty")
+    if sp["code"] != 0 and wrote:
+        res.count("proc:FAILED AFTER writing <stem>.<fmt> (" + sp["out"] + ")")
+        res.count(f"proc_failed_after_output:{c['fn']}:target_{c['state']}")
+    if sp["code"] != 0 and not wrote:
+        res.count("proc:failed without <stem>.<fmt> (" + sp["out"] + ")")
+    if sp["code"] == 0 and not wrote:
+        res.count("proc:exit 0 without <stem>.<fmt> (" + sp["out"] + ")")
+    if sp["code"] == 0 and wrote:
+        res.count("proc:exit 0 with " + sp["out"] + " output")
+    if sp["res"]:
+        res.count("proc:resource folder written" + (" by a failing run" if faults.proc_failed(sp) else ""))
+    if sp["extra"]:
+        res.count("proc:stray files in the output directory")
+    if sp["noise"]:
+        res.count("proc:noise:" + sp["noise"])
+    res.count("proc_via:" + ("explicit converter" if (c.get("conv") or {}).get("mode") == "real" else "PATH lookup"))
+
+
+def target_change(r):
+    """what happened to the target path, in words"""
+    t = r["dir"] + [r["tname"]]
+    b = next((e for e in r["before"] if e[0] == t), None)
+    a = next((e for e in r["after"] if e[0] == t), None)
+    if a == b:
+        return "unchanged"
+    if b is None:
+        return f"CREATED holding {a[2][:24]!r}" if a[1] == "f" else "CREATED as a directory"
+    if a is None:
+        return "REMOVED"
+    return f"REPLACED: was {b[2][:24]!r}, now {a[2][:24]!r}" if (a[1] == "f" and b[1] == "f") else "REPLACED"
+
+
 def run_cases(res, cases, phase):
     obs = common.pool_map(_worker, cases, chunksize=2)
     for o in obs:
@@ -252,12 +367,14 @@ def run_cases(res, cases, phase):
         fails, dis = judge(res, c, o, d)
         site = tuple(o["fired_site"]) if o.get("fired_site") else None
         cm = c.get("conv") or {}
-        nt = (c["fn"], c["state"], cm.get("mode"), cm.get("beh"), o["kind"], site, c.get("nclass"), c.get("form"))
+        nt = (c["fn"], c["state"], cm.get("mode"), beh_key(cm.get("beh")), o["kind"], site, c.get("nclass"), c.get("form"))
         res.case(slim(c, o), nt)
         res.corr_checked += 1
         res.count(f"{phase}:{c['fn']}")
         res.count("outcome:" + ("injected" if (o["fired"] and not o["swallowed"]) else o["kind"]))
         res.count("state:" + c["state"])
+        if o.get("proc"):
+            count_proc(res, c, o)
         if c.get("nclass"):
             res.count("name:" + c["nclass"])
             if o["kind"] == "ok":
@@ -442,7 +559,7 @@ def names_unit(res, rng, tier):
             res.disagree(dict(names_unit=nm, fn=fn), f"names unit: model {d} vs pathlib {want} for the target name {nm!r}")
 
 
-def matrix_cases(rng, tier):
+def matrix_cases(rng, tier, prng):
     cases = []
     docs = ["small", "unicode"] if tier == "quick" else GOOD_DOCS
     for st in RTF_STATES:
@@ -455,12 +572,60 @@ def matrix_cases(rng, tier):
             for cv in conv_configs():
                 dn = rng.choice(docs)
                 cases.append(mk(fn, dn, st, cv))
+            for cv in proc_configs(prng):
+                cases.append(mk(fn, prng.choice(docs), st, cv))
             # failing encoder under two converter configurations
             cases.append(mk(fn, rng.choice(BAD_DOCS), st, dict(mode="stub", beh="okRes")))
             cases.append(mk(fn, rng.choice(BAD_DOCS), st, dict(mode="real", beh="ok")))
         for cv in (dict(mode="stub", beh="okRes"), dict(mode="stub", beh="okPlain"), dict(mode="real", beh="okres"),
                    dict(mode="stub", beh="failAfter")):
             cases.append(mk(fn, "small", "existing", cv, twice=True))
+        for b in ("x1.trunc7.res", "xKILL.full", "x0.trunc9.res"):
+            cases.append(mk(fn, "small", "existing", dict(mode="real", beh=b), twice=True))
+    return cases
+
+
+def proc_cases(rng, tier):
+    """the real LibreOfficeConverter over fake soffice processes, systematically: every exit status class (0, several
+    non-zero statuses, killed by KILL / TERM / HUP) x what was written before the exit (nothing, the full / a truncated /
+    an empty <stem>.<fmt>, the document under another name / in a subdirectory) for write_docx / write_pdf /
+    write_html, over an existing and a new target (+ further target states), with random resource folder / stray
+    files / noise, explicit converter or PATH lookup, usual and unusual target names"""
+    cases = []
+    quick = tier == "quick"
+    docs = ["small", "unicode"] if quick else GOOD_DOCS
+    for fn in ("docx", "pdf", "html"):
+        others = ["missing_dirs", "named_files_dir", "parent_is_file", "target_is_dir"] + (HTML_STATES if fn == "html" else [])
+        classes = name_classes(fn)
+        for ex in ["0"] + PROC_EXITS_BAD:
+            for out in PROC_OUTS:
+                states = ["existing", "absent"] + ([rng.choice(others)] if quick else others)
+                for st in states:
+                    cv = dict(mode=rng.choice(["real", "real", "path"]), beh=proc_beh(rng, exit=ex, out=out))
+                    kw = {}
+                    if rng.random() < 0.35:
+                        cls = rng.choice(list(classes))
+                        kw = dict(tname=rng.choice(classes[cls]), nclass=cls, form=rng.choice(list(faults.FORMS)))
+                    cases.append(mk(fn, rng.choice(docs), st, cv, **kw))
+        # a failing encoder never reaches the process
+        cases.append(mk(fn, rng.choice(BAD_DOCS), "existing", dict(mode="real", beh=proc_beh(rng, ok=False))))
+    return cases
+
+
+def proc_name_cases(rng, tier):
+    """every target-name class x a failing and a succeeding process run"""
+    cases = []
+    quick = tier == "quick"
+    docs = ["small", "unicode"] if quick else GOOD_DOCS
+    for fn in ("docx", "pdf", "html"):
+        states = ["existing", "absent", "missing_dirs", "named_files_dir"] + (HTML_STATES if fn == "html" else [])
+        for cls, names in name_classes(fn).items():
+            for nm in ([rng.choice(names)] if quick else names):
+                for ok in (False, True):
+                    for st in (rng.sample(states[:2], 1) + rng.sample(states[2:], 1) if quick else states):
+                        cases.append(mk(fn, rng.choice(docs), st,
+                                        dict(mode=rng.choice(["real", "path"]), beh=proc_beh(rng, ok=ok)),
+                                        tname=nm, nclass=cls, form=rng.choice(list(faults.FORMS))))
     return cases
 
 
@@ -484,11 +649,17 @@ def profiles(rng, tier):
             ("docx", "small", "missing_dirs", dict(mode="stub", beh="okPlain"), dict(tname="report", form="dot")),
             ("pdf", "small", "existing", dict(mode="stub", beh="failAfter"), dict(tname=".report.v1.PDF", form="updown")),
             ("rtf", "small", "absent", None, dict(tname="my report.final", form="relpath")),
+            # the conversion PROCESS fails after writing output / succeeds with a truncated document: every call site
+            ("pdf", "small", "existing", dict(mode="real", beh="x1.trunc7")),
+            ("html", "small", "absent", dict(mode="path", beh="xKILL.full.res.extra")),
+            ("docx", "unicode", "existing", dict(mode="real", beh="x0.trunc9.extra.noisy"), dict(tname="report.v1", form="rel")),
         ]
     out = []
     convs = [dict(mode="stub", beh="okRes"), dict(mode="stub", beh="okPlain"), dict(mode="real", beh="okres"),
              dict(mode="path", beh="ok"), dict(mode="stub", beh="failAfter"), dict(mode="lookup_fail"),
              dict(mode="real", beh="ok")]
+    convs += [dict(mode=m, beh=b) for m, b in (("real", "x1.trunc7"), ("path", "xKILL.full.res.extra"), ("real", "x1.full.res"),
+                                               ("real", "x0.trunc9.extra.noisy"), ("path", "x0.part"), ("real", "x3.empty.loud"))]
     for fn in ("rtf", "docx", "pdf", "html"):
         for dn in GOOD_DOCS + BAD_DOCS[:1]:
             states = ["existing", "missing_dirs"] + (["existing_res"] if fn == "html" else [])
@@ -542,7 +713,10 @@ def _simplicity(cw):
 
 def run(res: common.Result, build) -> int:
     rng = sub_rng(res.seed, "c18")
-    run_cases(res, matrix_cases(sub_rng(res.seed, "c18", "matrix"), res.tier), "matrix")
+    run_cases(res, matrix_cases(sub_rng(res.seed, "c18", "matrix"), res.tier, sub_rng(res.seed, "c18", "matrix", "proc")),
+              "matrix")
+    run_cases(res, proc_cases(sub_rng(res.seed, "c18", "proc"), res.tier), "proc")
+    run_cases(res, proc_name_cases(sub_rng(res.seed, "c18", "proc", "names"), res.tier), "proc_names")
     names_unit(res, sub_rng(res.seed, "c18", "names_unit"), res.tier)
     run_cases(res, name_cases(sub_rng(res.seed, "c18", "names"), res.tier), "names")
     fobs = run_cases(res, fault_cases(res, sub_rng(res.seed, "c18", "faults"), res.tier), "fault")
@@ -559,7 +733,11 @@ def run(res: common.Result, build) -> int:
                     "converter (C18_stub_confined: the injected stubs are confined). Level partial: effects are atomic in "
                     "the model; OS failures inside one effect are not exhibited. Names are data: C18names_* (Props/C18names.lean) "
                     "derive <stem>.rtf, the converted file's name and the resource folder's name from an arbitrary target "
-                    "name and place the folder next to the target under the converted file's name. The model is the tree with the D23 "
+                    "name and place the folder next to the target under the converted file's name. C18proc_* (Props/C18proc.lean): "
+                    "LibreOfficeConverter = procConverter over a process run (exit status + written entries); confined for every "
+                    "process; non-zero exit status / missing <stem>.<fmt> => convert raises whatever was written; an export whose "
+                    "runs fail raises, target unchanged, temps gone (C18proc_failed_run_raises); a returning export made a run with "
+                    "exit status 0 and the target holds that run's <stem>.<fmt> (C18proc_success_run). The model is the tree with the D23 "
                     "repair; C18_D23_unrepaired_nests / C18_D23_repaired state the defect and its repair on the commit block.")
 
 
@@ -594,6 +772,11 @@ def replay(payload) -> int:
     print("case            :", case_label(case), "fault at library call", case.get("fault"), "site", o.get("fired_site"))
     print("target argument :", repr(o.get("arg")), "| converter was given", repr(o.get("conv_in_name")), "and produced",
           repr(o.get("conv_out_name")), "+ resource folder", repr(o.get("res_name")))
+    if o.get("proc"):
+        sp = o["proc"]
+        print("converter process:", f"fake soffice ran {sp['runs']}x: wrote {sp['out']}" + (f"[{sp['n']} bytes]" if sp["out"] == "trunc" else "")
+              + (" + resource folder" if sp["res"] else "") + (" + stray files" if sp["extra"] else "")
+              + f", then exit status {sp['exit']}", "=> the conversion", "FAILED" if faults.proc_failed(sp) else "succeeded")
     print("work/ afterwards:", ["/".join(e[0][1:]) + ("/" if e[1] == "d" else "") for e in o["after"] if e[0][:1] == ["work"] and len(e[0]) > 1])
     print("real outcome    :", o["kind"], "|", o["exc"])
     print("real effects    :", o["trace"], "(raw:", o["events"], ")")
